@@ -265,7 +265,12 @@ class World:
                 c = n(a[0]).copy()
             return self.track_tree(c)
         if name == "delete":
-            Node.delete_node_instance(n(a[0]).id, children=bool(a[1]))
+            # the documented signature is (id, children=True): callers pass the flag by keyword or by position
+            self._delete_calls = getattr(self, "_delete_calls", 0) + 1
+            if (self._delete_calls + a[0]) % 2:
+                Node.delete_node_instance(n(a[0]).id, bool(a[1]))
+            else:
+                Node.delete_node_instance(n(a[0]).id, children=bool(a[1]))
             return 0
         if name == "set_content":
             n(a[0]).content = self.text_of(a[1])
